@@ -47,7 +47,15 @@ def run(ctx):
         flav = FLAVOUR[d.family]
         ds = d.ds
         names = Names()
-        vars_ = gen.add_data_vars(rng, ds, d.spec['kinds'], n_extra_max=3 if not quick else 2)
+        vars_ = gen.add_data_vars(rng, ds, d.spec['kinds'], n_extra_max=3 if not quick else 2, dtypes=('f8',))
+        # an integer variable as read without decoding (mask_and_scale=False): its _FillValue is an attribute and some cells hold
+        # that very number - flattening moves numbers, it does not interpret them
+        fv_ = next(((nm_, kd_, dm_) for nm_, kd_, dm_ in vars_ if kd_ is not None), None)
+        if fv_ is not None:
+            raw_vals = numpy.arange(ds[fv_[0]].size, dtype='i4').reshape(ds[fv_[0]].shape) + 5
+            raw_vals.reshape(-1)[::3] = -999
+            ds['raw_counts'] = xarray.DataArray(raw_vals, dims=ds[fv_[0]].dims, attrs={'_FillValue': numpy.int32(-999), 'missing_value': numpy.int32(-999)})
+            vars_.append(('raw_counts', fv_[1], list(fv_[2])))
         # a variable on no grid, and (UGRID) one carrying two grids' dimensions
         ds['nogrid'] = xarray.DataArray(numpy.arange(6.0).reshape(2, 3), dims=['time_x', 'k_x'])
         vars_.append(('nogrid', None, ['time_x', 'k_x']))
